@@ -419,6 +419,10 @@ func zzOps() {
 	n0 := verifrt.NondetRange("n0", verifrt.Param("N0LO", 0), verifrt.Param("N0", 3))
 	fillMode := verifrt.NondetRange("fill", verifrt.Param("FILLLO", 0), verifrt.Param("FILLHI", 0))
 	cfg := verifrt.NondetRange("cfg", verifrt.Param("CFGLO", 0), verifrt.Param("CFGHI", 1))
+	if verifrt.Param("PAIR", 0) == 1 && cfg != fillMode {
+		// paired mode: configuration i goes with fill mode i only
+		verifrt.Assume(false)
+	}
 	prefix, raw := mdag.V0CidPrefix(), false
 	if cfg == 1 {
 		prefix, raw = mdag.V1CidPrefix(), true
